@@ -90,6 +90,9 @@ pub struct Fatal {
     pub fault: Tape,
     pub steps: u64,
     pub virtual_ns: u64,
+    /// last scheduling steps before the fatal condition (only when tracing)
+    #[serde(default)]
+    pub trace_tail: Vec<(u64, usize, String, String)>,
 }
 
 struct PredPtr(*const (dyn Fn() -> bool + 'static));
@@ -114,6 +117,8 @@ struct ThreadInfo {
     op_deadline: Option<u64>,
     op_label: &'static str,
     last_site: &'static str,
+    /// step at which this thread was last given the baton (weak fairness)
+    last_run: u64,
 }
 
 struct Slot {
@@ -277,6 +282,7 @@ impl Sim {
                 op_deadline: None,
                 op_label: "",
                 last_site: "start",
+                last_run: 0,
             });
             g.current = 0;
         }
@@ -572,6 +578,11 @@ impl Sim {
             fault,
             steps: g.steps,
             virtual_ns: g.now - g.cfg.epoch_ns,
+            trace_tail: g
+                .trace
+                .as_ref()
+                .map(|t| t[t.len().saturating_sub(400)..].iter().map(|s| (s.step, s.thread, s.name.to_string(), s.site.to_string())).collect())
+                .unwrap_or_default(),
         };
         if let Some(hook) = self.fatal_hook.lock().unwrap().as_ref() {
             hook(&fatal);
@@ -692,7 +703,18 @@ impl Sim {
                 }
             }
         };
+        // Weak fairness: priority-based and starving strategies must not keep an enabled thread
+        // off the processor forever (the properties assume a responsive machine; e.g. a reader
+        // that holds an extent pin has to get to finish its read). A thread that has been enabled
+        // but not run for FAIRNESS_STEPS steps is run now.
+        const FAIRNESS_STEPS: u64 = 2_500;
+        let steps_now = g.steps;
+        let pick = enabled
+            .iter()
+            .position(|(i, _)| steps_now.saturating_sub(g.threads[*i].last_run) > FAIRNESS_STEPS)
+            .unwrap_or(pick);
         let (next, ready) = enabled[pick];
+        g.threads[next].last_run = steps_now;
 
         let tick = g.cfg.tick_ns * ((draw >> 29) as u64 % 3);
         if tick != 0 {
@@ -713,7 +735,10 @@ impl Sim {
             g.interleave.str(site);
         }
         if let Some(trace) = g.trace.as_mut() {
-            if trace.len() < 200_000 {
+            if trace.len() >= 200_000 {
+                trace.drain(..100_000);
+            }
+            {
                 trace.push(TraceStep {
                     step: g.steps,
                     thread: next,
@@ -837,6 +862,7 @@ impl Controller for Sim {
         {
             let mut g = self.inner.lock().unwrap();
             id = g.threads.len();
+            let steps_now = g.steps;
             let prio = g.sched.next() % 1_000_000;
             g.threads.push(ThreadInfo {
                 name,
@@ -847,6 +873,7 @@ impl Controller for Sim {
                 op_deadline: None,
                 op_label: "",
                 last_site: "spawn",
+                last_run: steps_now,
             });
             g.hash.u64(0x5AA0 ^ id as u64);
         }
